@@ -734,6 +734,12 @@ pub mod fasta {
             }
 //@end
 
+//@fn fasta::Reader::policy ret=r tags=C09
+//@spec
+        ensures
+            [C09|fasta.policy.is_field] *r == self.buf_policy,
+//@end
+
 //@fn fasta::Reader::set_policy ret=r tags=C09
 //@spec
         requires
@@ -849,6 +855,12 @@ pub mod fasta {
         ensures
             [C01,C03,C04,C05,C06|fasta.with_capacity.fresh] r.wf() && r.state == State::New && r.fresh(),
             [C09|fasta.with_capacity.capacity] r.buf_reader.cap() >= capacity,
+//@end
+//@fn fasta::Reader::new ret=r tags=C01,C06,C09
+//@spec
+        ensures
+            [C01,C03,C04,C05,C06|fasta.new.fresh] r.wf() && r.state == State::New && r.fresh(),
+            [C09|fasta.new.capacity] r.buf_reader.cap() >= BUFSIZE,
 //@end
 }
 
@@ -1482,6 +1494,13 @@ trait RecordD {
 //@spec
         ensures
             [C04|fasta.RecordSet.is_empty] r == (self.n() == 0),
+//@end
+//@fn fasta::RecordSet::shrink_buffer_to_fit tags=C04,C06
+//@spec
+        requires old(self).wf(),
+        ensures
+            [C04,C06|fasta.RecordSet.shrink_keeps_the_set] final(self).wf() && final(self).buffer@ == old(self).buffer@ && final(self).positions == old(self).positions
+                && final(self).n() == old(self).n(),
 //@end
 }
 
